@@ -29,6 +29,7 @@ RTOL = 1e-8
 MODELS = (("JC69", 0, "constant"), ("HKY", 0, "weibull4_inv"), ("GTR", 1, "weibull4"))
 OPS = ("large", "band", "under", "batch_large_under", "batch_band_large")
 LOG_BAND = -320.0 * math.log(10.0)  # smallest site likelihood ~1e-320 (a few thousand ulps)
+EDGE_LOGS = (-702.0, -706.0, -709.5)  # around the smallest normal double (e^-708.4)
 
 
 def shape_top(shape, n):
@@ -109,15 +110,16 @@ class Instance:
             self._ref_cache[key] = (float(np.sum(self.w * ll)), float(ll.min()))
         return self._ref_cache[key]
 
-    def band_length(self):
-        """branch length at which the smallest site likelihood is ~1e-320 (bisection on the
-        reference); None when even saturated branches do not reach the band"""
+    def band_length(self, target=None):
+        """branch length at which the smallest site likelihood is exp(target) (default ~1e-320; bisection
+        on the reference); None when even saturated branches do not reach it"""
+        target = LOG_BAND if target is None else target
         lo, hi = 0.01, 20.0
-        if self.ref(hi)[1] > LOG_BAND:
+        if self.ref(hi)[1] > target:
             return None
-        for _ in range(60):
+        for _ in range(60 if target == LOG_BAND else 28):
             mid = 0.5 * (lo + hi)
-            if self.ref(mid)[1] > LOG_BAND:
+            if self.ref(mid)[1] > target:
                 lo = mid
             else:
                 hi = mid
@@ -240,6 +242,28 @@ def sweep(case):
                                       f"rel {abs(g - ref) / abs(ref):.2e}, rescale={flag}"))
     except Exception as e:
         bad.append(("raises", f"{type(e).__name__}: {str(e)[:160]}"))
+    # the edge of the normal range: branch lengths (not saturated, so the root partials of a site differ
+    # between states and categories) at which the smallest site likelihood is just above / around / just
+    # below the smallest normal double e^-708.4; a fresh model each
+    for target in EDGE_LOGS:
+        try:
+            s_edge = inst.band_length(target)
+            if s_edge is None:
+                continue
+            d2 = inst.build()
+            d2["tree.blens"].tensor = torch.full((2 * n - 3,), s_edge)
+            g = float(d2["like"]())
+            ref, mn = inst.ref(s_edge)
+            if not np.isfinite(g):
+                bad.append(("not_finite", f"edge e^{target}: returned {g!r}, reference {ref!r}"))
+            elif not abs(g - ref) <= RTOL * abs(ref):
+                bad.append(("inaccurate", f"n={n}, branch length {s_edge!r}: smallest site likelihood e^{mn:.1f}; "
+                                          f"returned {g!r}, reference {ref!r}, rel {abs(g - ref) / abs(ref):.2e}, "
+                                          f"rescale={bool(d2['like'].rescale)}"))
+        except Exception as e:
+            bad.append(("raises", f"edge e^{target}: {type(e).__name__}: {str(e)[:160]}"))
+    seen = set()
+    bad = [b for b in bad if not (b[0] in seen or seen.add(b[0]))]
     return [{"case": case, "detail": f"{case}: {name}: {d}",
              "sig": {"check": name, "op": "sweep", "rescale_before": False}} for name, d in bad]
 
